@@ -29,7 +29,7 @@ RULE = (
     "generators of stats messages, size-class lists, action timeouts and outcome sequences; every strategy list "
     "(probabilities in ppm), every choice, learner kind and Release is logged and TLC evaluates the predicates on "
     "each logged value. ISCC.tla part B models blob_access_mutable_proto_store.go per lock section with a ghost "
-    "content version; TLC checks the intended design exhaustively (2 digests, 3 threads, bounded Gets/updates, "
+    "content version; TLC checks the intended design exhaustively (2 digests, 3 threads, at most 6 Gets / 3 updates in the quick and 10 Gets / 5 updates in the thorough tier, "
     "write success/failure): useCount balance, in-use handle in the map, no lost update after draining, "
     "monotonic writes, pending content carried. The real store runs over a gated fake ISCC BlobAccess inside "
     "testing/synctest; TLC-generated schedules (counterexample of the as-coded model variant, simulated "
@@ -88,9 +88,10 @@ def _generate_schedules(ctx):
         else:
             raise vlib.Infra("counterexample search %s failed: %s\n%s" % (cfg, r.violated or r.error, r.output[-2000:]))
     # 2. simulated behaviours
-    n = 25 if ctx.quick() else 250
+    n = 25 if ctx.quick() else 1000
     r = vlib.tlc_run(wd, "ISCCGen", "Sim_ISCC_store.cfg", workers=1, timeout=1800, heap="2g",
                      simulate="num=%d" % n, depth=40, seed=ctx.seed)
+    ctx.cov["tlc_runs"].append({"cfg": "Sim_ISCC_store.cfg", "simulate": n, "wall_s": round(r.wall, 1), "generated": 0})
     if not r.ok:
         raise vlib.Infra("TLC simulation of the store failed: %s\n%s" % (r.violated or r.error, r.output[-2000:]))
     for p in sorted(glob.glob(os.path.join(wd, "beh_*.ndjson"))):
@@ -116,15 +117,15 @@ def run_parts(ctx):
         # --- design checks (a failure here is a bug of the specification: exit 2)
         vlib.design_check(ctx, SPEC, "MC_ISCC_analyzer.cfg", [], timeout=1800, workers=2, heap="2g", label="ISCC analyzer part")
         store_cfg = "MC_ISCC_store.cfg" if ctx.quick() else "MC_ISCC_store_thorough.cfg"
-        vlib.design_check(ctx, SPEC, store_cfg, [], timeout=6000, label="ISCC store part (intended design)")
+        vlib.design_check(ctx, SPEC, store_cfg, [], timeout=9000, heap="8g", label="ISCC store part (intended design)")
 
     binary = vlib.go_build_test(ctx, "iscc")
 
     # --- part 2: the real analyzers
     if only in ("", "analyzer", "traces"):
-        n = 120 if ctx.quick() else 1200
+        n = 120 if ctx.quick() else 4000
         _, meta = _run_and_validate(ctx, binary, "TestAnalyzerRandom", "iscc_analyzer", CFG_AN,
-                                    {"VERIF_N": n, "VERIF_EPISODES": 12}, timeout_tlc=3000)
+                                    {"VERIF_N": n, "VERIF_EPISODES": 12}, timeout_tlc=6000)
         extra["analyzer"] = meta
     if only == "analyzer":
         return {"rule": RULE, "extra": extra}
@@ -137,9 +138,9 @@ def run_parts(ctx):
     extra["store_tlc_schedules"] = info
 
     # --- part 3: the real store, seeded random schedules
-    n = 100 if ctx.quick() else 700
+    n = 100 if ctx.quick() else 3000
     _run_and_validate(ctx, binary, "TestStoreRandom", "iscc_store_random", CFG_STORE,
-                      {"VERIF_N": n, "VERIF_STEPS": 40}, timeout_tlc=3000)
+                      {"VERIF_N": n, "VERIF_STEPS": 40}, timeout_tlc=6000)
     extra["store_random"] = {"schedules": n, "steps": 40}
     return {"rule": RULE, "extra": extra}
 
